@@ -39,9 +39,10 @@ func digitsOf(n int) string { return strconv.Itoa(n) }
 // memory). guardsIntact is checked after the operation.
 const cbSentinel = "\x00SENTINEL\x00"
 
-var cbGuards [][2][]string // (full buffer, copy of what was returned)
+// One registry per library call (never package-level: the race stress runs evalStep in 8 goroutines).
+type cbGuards struct{ g [][2][]string } // (full buffer, copy of what was returned)
 
-func guardSlice(res []string) []string {
+func (cg *cbGuards) guardSlice(res []string) []string {
 	if res == nil {
 		return nil
 	}
@@ -50,13 +51,13 @@ func guardSlice(res []string) []string {
 	for i := len(res); i < len(buf); i++ {
 		buf[i] = cbSentinel
 	}
-	cbGuards = append(cbGuards, [2][]string{buf, append([]string(nil), res...)})
+	cg.g = append(cg.g, [2][]string{buf, append([]string(nil), res...)})
 	return buf[:len(res)]
 }
 
-func guardsIntact() bool {
+func (cg *cbGuards) intact() bool {
 	ok := true
-	for _, g := range cbGuards {
+	for _, g := range cg.g {
 		buf, want := g[0], g[1]
 		for i := range buf {
 			if i < len(want) && buf[i] != want[i] || i >= len(want) && buf[i] != cbSentinel {
@@ -64,13 +65,13 @@ func guardsIntact() bool {
 			}
 		}
 	}
-	cbGuards = cbGuards[:0]
+	cg.g = cg.g[:0]
 	return ok
 }
 
-func lineFn(id int, log *[]string) rosed.LineOperation {
+func lineFn(id int, log *[]string, cg *cbGuards) rosed.LineOperation {
 	f := lineFn0(id, log)
-	return func(idx int, line string) []string { return guardSlice(f(idx, line)) }
+	return func(idx int, line string) []string { return cg.guardSlice(f(idx, line)) }
 }
 
 func lineFn0(id int, log *[]string) rosed.LineOperation {
@@ -107,9 +108,9 @@ func lineFn0(id int, log *[]string) rosed.LineOperation {
 	}
 }
 
-func paraFn(id int, log *[]string) rosed.ParagraphOperation {
+func paraFn(id int, log *[]string, cg *cbGuards) rosed.ParagraphOperation {
 	f := paraFn0(id, log)
-	return func(idx int, para, pre, suf string) []string { return guardSlice(f(idx, para, pre, suf)) }
+	return func(idx int, para, pre, suf string) []string { return cg.guardSlice(f(idx, para, pre, suf)) }
 }
 
 func paraFn0(id int, log *[]string) rosed.ParagraphOperation {
@@ -402,18 +403,19 @@ func evalStep(pool []entry, step string) (ent entry, obs string) {
 			return bad, "X~parse"
 		}
 		var log []string
+		var cg cbGuards
 		var res rosed.Editor
 		if a[3] == "=" {
-			res = e.Apply(lineFn(f, &log))
+			res = e.Apply(lineFn(f, &log, &cg))
 		} else {
 			o, ok := decOpts(a[3])
 			if !ok {
 				return bad, "X~parse"
 			}
-			res = e.ApplyOpts(lineFn(f, &log), o)
+			res = e.ApplyOpts(lineFn(f, &log, &cg), o)
 		}
 		en, ob := edRes(res)
-		if !guardsIntact() {
+		if !cg.intact() {
 			return bad, "X~argmut"
 		}
 		if en.bad {
@@ -426,18 +428,19 @@ func evalStep(pool []entry, step string) (ent entry, obs string) {
 			return bad, "X~parse"
 		}
 		var log []string
+		var cg cbGuards
 		var res rosed.Editor
 		if a[3] == "=" {
-			res = e.ApplyParagraphs(paraFn(f, &log))
+			res = e.ApplyParagraphs(paraFn(f, &log, &cg))
 		} else {
 			o, ok := decOpts(a[3])
 			if !ok {
 				return bad, "X~parse"
 			}
-			res = e.ApplyParagraphsOpts(paraFn(f, &log), o)
+			res = e.ApplyParagraphsOpts(paraFn(f, &log, &cg), o)
 		}
 		en, ob := edRes(res)
-		if !guardsIntact() {
+		if !cg.intact() {
 			return bad, "X~argmut"
 		}
 		if en.bad {
